@@ -373,7 +373,7 @@ def radius_sq(r):
     md2 = md ** 2
     ex = Fraction(md) ** 2
     fl = ex.numerator // ex.denominator
-    if abs(md2 - round(md2)) <= 1e-9 * max(1.0, md2):
+    if abs(md2 - round(md2)) <= 16 * math.ulp(md2):
         return None
     if math.floor(md2) != fl:
         return None
@@ -1085,6 +1085,16 @@ def main(ctx):
             ctx.obligations.append({'name': nm, 'discharged': False, 'assumptions': [],
                                     'note': 'translator failed closed'})
     model_ok, _, _ = lib.coq_make(['C16/Model.vo'])
+    if proof_ok and not quick:
+        rc, out, err, dt = lib.sh(['coqchk', '-silent', '-o', '-Q', str(lib.COQ), 'FV', 'FV.C16.Props'],
+                                  cwd=lib.COQ, timeout=900)
+        ctx.notes['coqchk'] = {'rc': rc, 'seconds': round(dt, 1), 'tail': (out + err)[-300:]}
+        ctx.log(f'coqchk rc={rc} ({dt:.0f}s)')
+        if rc != 0:
+            proof_ok = False
+            for o in ctx.obligations:
+                o['discharged'] = False
+                o['note'] = 'coqchk failed'
     valid_ok = True
     if tie_ok:
         gen_ok, _, _ = lib.coq_make(['C16/gen/Bounds.vo'])
@@ -1162,6 +1172,8 @@ def replay(path):
         return 1
     c['id'] = 0
     c.setdefault('conn_idx', [])
+    for k_, v_ in (('family', 'replay'), ('qmode', 'replay'), ('idmode', 'replay')):
+        c.setdefault(k_, v_)
     res = run_impl(ctx, [c], 'replay')
     print('implementation:', json.dumps(res[0])[:3000])
     lib.coq_make(['C16/Model.vo'])
